@@ -53,6 +53,7 @@ type Control struct {
 	failAt   map[string]int // op -> n (1-based); 0 = never
 	Hook     func(op string, n int)
 	closedID map[int64]bool
+	sticky   []string
 }
 
 // Ctl is the process-wide control block.
@@ -98,6 +99,22 @@ func (c *Control) Counts() map[string]int {
 	for k, v := range c.counts {
 		rv[k] = v
 	}
+	return rv
+}
+
+// misuse records a misuse of a native object (caller holds c.mu). Besides the Errors
+// list, which Reset clears, it is kept in a sticky list that only TakeMisuse empties.
+func (c *Control) misuse(msg string) {
+	c.errs = append(c.errs, msg)
+	c.sticky = append(c.sticky, msg)
+}
+
+// TakeMisuse returns and clears every misuse recorded since the last call, across Resets.
+func (c *Control) TakeMisuse() []string {
+	c.mu.Lock()
+	defer c.mu.Unlock()
+	rv := c.sticky
+	c.sticky = nil
 	return rv
 }
 
@@ -164,7 +181,7 @@ func (c *Control) alloc(kind string) int64 {
 func (c *Control) free(id int64, kind string) {
 	c.mu.Lock()
 	if _, ok := c.live[id]; !ok {
-		c.errs = append(c.errs, fmt.Sprintf("double free of %s #%d", kind, id))
+		c.misuse(fmt.Sprintf("double free of %s #%d", kind, id))
 	} else {
 		delete(c.live, id)
 		c.closedID[id] = true
@@ -175,7 +192,7 @@ func (c *Control) free(id int64, kind string) {
 func (c *Control) use(id int64, op string) {
 	c.mu.Lock()
 	if _, ok := c.live[id]; !ok {
-		c.errs = append(c.errs, fmt.Sprintf("use after free: %s on index #%d", op, id))
+		c.misuse(fmt.Sprintf("use after free: %s on index #%d", op, id))
 	}
 	c.mu.Unlock()
 }
@@ -760,7 +777,7 @@ func (s *fakeSelector) Delete() {
 func (s *fakeSelector) use(op string) {
 	Ctl.mu.Lock()
 	if _, ok := Ctl.live[s.id]; !ok {
-		Ctl.errs = append(Ctl.errs, fmt.Sprintf("use after free: %s with selector #%d", op, s.id))
+		Ctl.misuse(fmt.Sprintf("use after free: %s with selector #%d", op, s.id))
 	}
 	Ctl.mu.Unlock()
 }
